@@ -14,9 +14,22 @@
     search    Buffer.history_search_text
     ehs       current value of the `enable_history_search` filter
     vwt       current value of `validate_while_typing` (with a validator present)
+    ml        current value of the PromptSession's `multiline` filter (key level only: Enter
+              inserts a line break instead of accepting)
     vstate    Buffer.validation_state
-    vpending  an `_async_validator` background task has been created and has not run yet
+    verr      Buffer.validation_error (its `cursor_position`; `none` = None)
+    vtasks    number of `_async_validator()` background tasks created by `_text_changed` that did
+              not get their first step yet
+    vrun      the `running` flag of `_only_one_at_a_time(async_validator)`; while it is set the
+              coroutine is suspended in `await self.validator.validate_async(self.document)` of
+              `_validate_async`, and the value is the `document` local captured before the await
+    vasync    the validator's `validate_async` really suspends (ThreadedValidator, any
+              asynchronous validator); `false` = `Validator.validate_async` (calls `validate` inline)
     pref      Buffer.preferred_column
+    yank      Buffer.yank_nth_arg_state (history_position, n, previous_inserted_word)
+    preRun    `Application.pre_run_callables` registered by `operate-and-get-next`: each entry is
+              the `working_index` at the time of the key press (the callable sets
+              `working_index = that + 1` at the start of the next run, if such an entry exists then)
     loading   Buffer._load_history_task is not None
     pending   what the running `history.load()` generator will still yield (newest first)
 
@@ -25,11 +38,19 @@
   Not modelled: completion state, selection, undo stack, yank-nth-arg.
 -/
 import Ptk.Py
+import Ptk.Gen.C14
 namespace Ptk.C14
 open Ptk.Py
 
 inductive VState
   | unknown | valid | invalid
+deriving Repr, DecidableEq
+
+/-- `YankNthArgState` -/
+structure Yank where
+  pos : Int
+  n : Int
+  prev : Text
 deriving Repr, DecidableEq
 
 structure St where
@@ -42,9 +63,15 @@ structure St where
   search : Option Text
   ehs : Bool
   vwt : Bool
+  ml : Bool
   vstate : VState
-  vpending : Bool
+  verr : Option Int
+  vtasks : Nat
+  vrun : Option (Text × Nat)
+  vasync : Bool
   pref : Option Nat
+  yank : Option Yank
+  preRun : List Nat
   loading : Bool
   pending : List Text
 deriving Repr, DecidableEq
@@ -58,10 +85,10 @@ def notNl (c : Char) : Bool := c != '\n'
 def St.text (s : St) : Text := s.work.getD s.idx []
 
 /-- `History()` + `InMemoryHistory(strs)` + `Buffer(history=h)` right after construction. -/
-def St.fresh (strs : List Text) (ehs vwt : Bool) : St :=
+def St.fresh (strs : List Text) (ehs vwt : Bool) (vasync : Bool := false) (ml : Bool := false) : St :=
   { storage := strs, hloaded := false, hist := [], work := [[]], idx := 0, cur := 0,
-    search := none, ehs := ehs, vwt := vwt, vstate := .unknown, vpending := false,
-    pref := none, loading := false, pending := [] }
+    search := none, ehs := ehs, vwt := vwt, ml := ml, vstate := .unknown, verr := none, vtasks := 0,
+    vrun := none, vasync := vasync, pref := none, yank := none, preRun := [], loading := false, pending := [] }
 
 /-! ### Document queries on the current text -/
 
@@ -88,11 +115,12 @@ def rowColToIndex (t : Text) (r c : Nat) : Nat :=
 /-- `Buffer.cursor_position = v` (clamped to `0..len(text)`; a change resets `preferred_column`). -/
 def setCursorPos (s : St) (v : Int) : St :=
   let c := min v.toNat s.text.length
-  if c = s.cur then s else { s with cur := c, pref := none }
+  if c = s.cur then s else { s with cur := c, pref := none, yank := none }
 
 /-- `Buffer._text_changed` -/
 def textChanged (s : St) : St :=
-  { s with vstate := .unknown, pref := none, vpending := s.vpending || s.vwt }
+  { s with vstate := .unknown, verr := none, pref := none, yank := none,
+           vtasks := if s.vwt then s.vtasks + 1 else s.vtasks }
 
 /-- `Buffer.working_index = i` -/
 def setWorkingIndex (s : St) (i : Nat) : St :=
@@ -111,11 +139,22 @@ def setDocument (s : St) (t : Text) (c : Nat) : St :=
   let cchanged := decide (c ≠ s.cur)
   let s1 := { s with work := s.work.set s.idx t, cur := c }
   let s2 := if tchanged then { textChanged s1 with search := none } else s1
-  if cchanged then { s2 with pref := none } else s2
+  if cchanged then { s2 with pref := none, yank := none } else s2
 
 /-- `Buffer.insert_text(data)` (insert mode, cursor moves) -/
 def insertText (s : St) (data : Text) : St :=
   setDocument s (s.text.take s.cur ++ data ++ s.text.drop s.cur) (s.cur + data.length)
+
+/-- `Document.current_line` -/
+def currentLine (t : Text) (cur : Nat) : Text := lineBefore t cur ++ lineAfter t cur
+
+/-- `Document.leading_whitespace_in_current_line`: `current_line[:len(current_line) - len(current_line.lstrip())]`;
+    `isSp` is Python's `str.isspace` (a class of the runtime: parameter) -/
+def leadingWs (isSp : Char → Bool) (t : Text) (cur : Nat) : Text := (currentLine t cur).takeWhile isSp
+
+/-- what `Buffer.newline(copy_margin)` inserts -/
+def newlineData (isSp : Char → Bool) (s : St) (copyMargin : Bool) : Text :=
+  '\n' :: (if copyMargin then leadingWs isSp s.text s.cur else [])
 
 /-- `Buffer.delete_before_cursor(count)` -/
 def deleteBefore (s : St) (count : Nat) : St :=
@@ -210,10 +249,22 @@ def goToHistory (s : St) (index : Nat) : St :=
     setCursorPos s1 s1.text.length
   else s
 
-/-- named command `end-of-history` -/
+/-- `Buffer.go_to_history(index)` with the proposed repair
+    (proposed_fixes/C14-go-to-history-resets-search.diff): the jump also forgets the remembered
+    search prefix.  Which of the two variants the tree contains is probed on every run
+    (`Ptk.Gen.C14.goToHistoryResetsSearch`). -/
+def goToHistoryFixed (s : St) (index : Nat) : St :=
+  if index < s.work.length then { goToHistory s index with search := none } else s
+
+/-- named command `end-of-history` (`history_forward(count=10**100)`: the count is re-read from the
+    source on every run, `Ptk.Gen.C14.endHistCount`) -/
 def endOfHistory (s : St) : St :=
-  let s1 := historyForward s ((10 : Int) ^ 100)
+  let s1 := historyForward s Ptk.Gen.C14.endHistCount
   goToHistory s1 (s1.work.length - 1)
+
+def endOfHistoryFixed (s : St) : St :=
+  let s1 := historyForward s Ptk.Gen.C14.endHistCount
+  goToHistoryFixed s1 (s1.work.length - 1)
 
 /-- the body of `Buffer.auto_up` for `count ≥ 1`, without completion menu and without
     selection; `none` = AssertionError from `cursor_up` (unreachable for `count ≥ 1`) -/
@@ -241,6 +292,70 @@ def autoDown (s : St) (count : Int) (goStart : Bool) : Option St :=
   if count ≤ 0 then (if count < 0 then autoUpPos s (-count) goStart else some s)
   else autoDownPos s count goStart
 
+/-! ### yank-nth-arg / yank-last-arg: read the history, insert into the current working copy -/
+
+/-- `_QUOTED_WORDS_RE = (\s+|".*?"|'.*?')`: does a quoted string start here?  `q` is the quote;
+    `.*?` is the shortest run without a line break up to the next `q`.  Returns the length of the
+    match (both quotes included). -/
+def quotedLen (q : Char) : Text → Option Nat
+  | [] => none
+  | c :: rest =>
+    if c ≠ q then none else
+    let body := rest.takeWhile (fun x => x != q && x != '\n')
+    match rest.drop body.length with
+    | d :: _ => if d = q then some (body.length + 2) else none
+    | [] => none
+
+/-- `_QUOTED_WORDS_RE.split(line)` (a pattern with one capturing group: the separators are kept):
+    `fuel` bounds the recursion (the length of the text suffices), `chunk` collects the text since
+    the last match, reversed. `reSp` = regex `\s` -/
+def splitQuoted (reSp : Char → Bool) : Nat → Text → Text → List Text
+  | 0, _, chunk => [chunk.reverse]
+  | _ + 1, [], chunk => [chunk.reverse]
+  | fuel + 1, c :: rest, chunk =>
+    if reSp c then
+      let run := (c :: rest).takeWhile reSp
+      chunk.reverse :: run :: splitQuoted reSp fuel ((c :: rest).drop run.length) []
+    else
+      match (quotedLen '"' (c :: rest)).orElse (fun _ => quotedLen '\'' (c :: rest)) with
+      | some n => chunk.reverse :: (c :: rest).take n :: splitQuoted reSp fuel ((c :: rest).drop n) []
+      | none => splitQuoted reSp fuel rest (c :: chunk)
+
+/-- `str.strip()` -/
+def strip (isSp : Char → Bool) (t : Text) : Text :=
+  ((t.dropWhile isSp).reverse.dropWhile isSp).reverse
+
+/-- `words = [w.strip() for w in _QUOTED_WORDS_RE.split(line)]; words = [w for w in words if w]` -/
+def quotedWords (reSp isSp : Char → Bool) (line : Text) : List Text :=
+  ((splitQuoted reSp line.length line []).map (strip isSp)).filter (· ≠ [])
+
+/-- the reading half of `Buffer.yank_nth_arg(n, _yank_last_arg)`: which history entry and which of
+    its words; `none` when `get_strings()` is empty (the method returns at once).
+    Result: (new history_position, n, word). -/
+def yankLookup (words : Text → List Text) (s : St) (n : Option Int) (last : Bool) : Option (Int × Int × Text) :=
+  if s.hist = [] then none else
+  let st0 : Yank := s.yank.getD { pos := 0, n := if last then -1 else 1, prev := [] }
+  let k := match n with | some k => k | none => st0.n
+  let newPos0 := st0.pos - 1
+  let newPos := if -newPos0 > (s.hist.length : Int) then -1 else newPos0
+  let line := (index? s.hist newPos).getD []
+  let word := (index? (words line) k).getD []
+  some (newPos, k, word)
+
+/-- the writing half: the previously inserted word (if any) is deleted before the cursor, the
+    new one inserted, the state saved again -/
+def yankPrev (s : St) : Text :=
+  match s.yank with
+  | some y => y.prev
+  | none => []
+
+/-- the state `yank_nth_arg` inserts into: the previously inserted word removed -/
+def yankBase (s : St) : St :=
+  if yankPrev s ≠ [] then deleteBefore s (yankPrev s).length else s
+
+def yankApply (s : St) (pos n : Int) (word : Text) : St :=
+  { insertText (yankBase s) word with yank := some { pos := pos, n := n, prev := word } }
+
 /-! ### validation, accept, reset -/
 
 /-- `Buffer.validate(set_cursor)`; the Bool is the return value -/
@@ -249,19 +364,66 @@ def validate (v : Validator) (s : St) (setCursor : Bool) : St × Bool :=
   match v s.text with
   | some e =>
     let s1 := if setCursor then setCursorPos s (min (max 0 e) s.text.length) else s
-    ({ s1 with vstate := .invalid }, false)
-  | none => ({ s with vstate := .valid }, true)
+    ({ s1 with vstate := .invalid, verr := some e }, false)
+  | none => ({ s with vstate := .valid, verr := none }, true)
 
-/-- the `_async_validator` background task created by `_text_changed` runs to completion
-    (synchronous validator: no document change in between) -/
-def asyncValidate (v : Validator) (s : St) : St :=
-  if s.vpending then
-    let s1 := { s with vpending := false }
-    if s1.vstate ≠ .unknown then s1 else
-    match v s1.text with
-    | some _ => { s1 with vstate := .invalid }
-    | none => { s1 with vstate := .valid }
-  else s
+/-! #### `_validate_async` under `_only_one_at_a_time`, cut at its only await
+
+The coroutine `async_validator` = `_only_one_at_a_time(lambda: self._validate_async())`:
+
+    if running: return                      -- swallowed
+    running = True
+    try:  while True:                       -- `_validate_async`
+            if self.validation_state != UNKNOWN: return
+            error = None; document = self.document
+            try: await self.validator.validate_async(self.document)     -- <- the cut
+            except ValidationError as e: error = e
+            if self.document != document: continue
+            self.validation_state = INVALID if error else VALID
+            self.validation_error = error
+    finally: running = False
+
+Between two cuts the coroutine runs atomically (asyncio).  `Document.__eq__` compares text and
+cursor position (no selection in this model). -/
+
+/-- "Handle validation result." -/
+def setVerdict (s : St) (r : Option Int) : St :=
+  match r with
+  | some e => { s with vstate := .invalid, verr := some e }
+  | none => { s with vstate := .valid, verr := none }
+
+/-- `_validate_async` from the top of its `while True` with `running = True`: up to the await
+    (then `vrun` holds the captured document) or to its `return` (`finally: running = False`). -/
+def vLoopTop (v : Validator) (s : St) : St :=
+  if s.vstate ≠ .unknown then { s with vrun := none }
+  else if s.vasync then { s with vrun := some (s.text, s.cur) }
+  else
+    -- `Validator.validate_async` does not suspend: the document cannot have changed, the verdict
+    -- is stored and the next iteration returns
+    { setVerdict s (v s.text) with vrun := none }
+
+/-- one created `_async_validator()` task gets its first step -/
+def vStart (v : Validator) (s : St) : St :=
+  if s.vtasks = 0 then s else
+  let s1 := { s with vtasks := s.vtasks - 1 }
+  if s1.vrun.isSome then s1 else vLoopTop v s1
+
+/-- the validation in flight finishes (returns or raises `ValidationError`): the coroutine runs
+    on to its next await or to its end -/
+def vFinish (v : Validator) (s : St) : St :=
+  match s.vrun with
+  | none => s
+  | some (t, c) =>
+    if s.text = t ∧ s.cur = c then { setVerdict s (v t) with vrun := none }
+    else vLoopTop v s
+
+def drainGo (v : Validator) : Nat → St → St
+  | 0, s => s
+  | n + 1, s => drainGo v n (vStart v s)
+
+/-- one turn of the event loop: every created `_async_validator()` task gets its first step, in
+    creation order (with a validator that does not suspend they all run to completion) -/
+def asyncValidate (v : Validator) (s : St) : St := drainGo v s.vtasks s
 
 /-- `Buffer.append_to_history` (`History.append_string` + `InMemoryHistory.store_string`) -/
 def appendToHistory (s : St) : St :=
@@ -272,10 +434,13 @@ def appendToHistory (s : St) : St :=
      else s)
   else s
 
-/-- `Buffer.reset(Document(t, c))` -/
+/-- `Buffer.reset(Document(t, c))`: a running `_async_validator` is not touched -/
 def reset (s : St) (t : Text) (c : Nat) : St :=
-  { s with cur := c, vstate := .unknown, pref := none, search := none,
+  { s with cur := c, vstate := .unknown, verr := none, pref := none, yank := none, search := none,
            loading := false, pending := [], work := [t], idx := 0 }
+
+/-- `Buffer.reset(Document(t, c), append_to_history=True)` -/
+def resetAppend (s : St) (t : Text) (c : Nat) : St := reset (appendToHistory s) t c
 
 /-- `Buffer.validate_and_handle()` with an accept handler that records the text it was given
     and returns `keep`; the `Option Text` is what the handler received (= the prompt's result) -/
@@ -304,6 +469,25 @@ def loadOne (s : St) : St :=
 def loadAll (s : St) : St :=
   { s with work := s.pending.reverse ++ s.work, idx := s.idx + s.pending.length, pending := [] }
 
+/-- `Application.run_async` finishes (`cancel_and_wait_for_background_tasks`): validator tasks
+    that did not start yet never run, the one suspended in `validate_async` is cancelled and
+    leaves through `finally: running = False` -/
+def appExit (s : St) : St := { s with vtasks := 0, vrun := none }
+
+/-- named command `operate-and-get-next` (emacs `c-o`) on the PromptSession's default buffer:
+    `new_index = working_index + 1`, `validate_and_handle()` (the session's accept handler keeps
+    the text), and — accepted or not — a callable is appended to `app.pre_run_callables` -/
+def operateNext (v : Validator) (s : St) : St × Option Text :=
+  let (s1, r) := validateAndHandle v s true
+  ({ s1 with preRun := s1.preRun ++ [s.idx] }, r)
+
+/-- `Application._pre_run`: the registered callables run in order
+    (`if new_index < len(buff._working_lines): buff.working_index = new_index`), then the list is
+    cleared -/
+def runPreRun (s : St) : St :=
+  let s1 := s.preRun.foldl (fun t i => if i + 1 < t.work.length then setWorkingIndex t (i + 1) else t) s
+  { s1 with preRun := [] }
+
 /-! ### operations -/
 
 inductive Op
@@ -319,13 +503,22 @@ inductive Op
   | autoUp (c : Int) (gs : Bool)
   | autoDown (c : Int) (gs : Bool)
   | setEhs (b : Bool)
+  | setVwt (b : Bool)
   | validate (setc : Bool)
   | asyncValidate
+  | vStart
+  | vFinish
   | accept (keep : Bool)
   | append
   | reset (t : Text) (c : Nat)
+  | resetAppend (t : Text) (c : Nat)
   | startLoad
   | loadOne
+  | appExit
+  | operateNext
+  | yankApply (pos n : Int) (word : Text)
+  | goToFixed (i : Nat)
+  | endHistFixed
 deriving Repr
 
 inductive Out
@@ -356,15 +549,26 @@ def step (v : Validator) (s : St) : Op → St × Out
     | some s' => (s', .none)
     | none => (s, .assertErr)
   | .setEhs b => ({ s with ehs := b }, .none)
+  | .setVwt b => ({ s with vwt := b }, .none)
   | .validate sc => let (s', b) := validate v s sc; (s', .bool b)
   | .asyncValidate => (asyncValidate v s, .none)
+  | .vStart => (vStart v s, .none)
+  | .vFinish => (vFinish v s, .none)
   | .accept keep => match validateAndHandle v s keep with
     | (s', some t) => (s', .accepted t)
     | (s', none) => (s', .rejected)
   | .append => (appendToHistory s, .none)
   | .reset t c => (reset s t c, .none)
+  | .resetAppend t c => (resetAppend s t c, .none)
   | .startLoad => (startLoad s, .none)
   | .loadOne => (loadOne s, .none)
+  | .appExit => (appExit s, .none)
+  | .operateNext => match operateNext v s with
+    | (s', some t) => (s', .accepted t)
+    | (s', none) => (s', .rejected)
+  | .yankApply p n w => (yankApply s p n w, .none)
+  | .goToFixed i => (goToHistoryFixed s i, .none)
+  | .endHistFixed => (endOfHistoryFixed s, .none)
 
 def run (v : Validator) (s : St) (ops : List Op) : St :=
   ops.foldl (fun s op => (step v s op).1) s
@@ -373,18 +577,30 @@ def run (v : Validator) (s : St) (ops : List Op) : St :=
 
 /-- `PromptSession.prompt(default=d)` up to and including the first render and the first
     step of the loop: `default_buffer.reset(Document(d))`, the previous run's background
-    tasks are gone, `BufferControl.create_content` starts the loader, which (plain
+    tasks are gone (`Application.run_async` cancels them when it finishes: tasks that did not
+    start yet never run, the one suspended in `validate_async` leaves through
+    `finally: running = False`), `BufferControl.create_content` starts the loader, which (plain
     `History.load`, no awaits between items) runs to completion before the first key. -/
 def promptStart (s : St) (d : Text) : St :=
-  loadAll (startLoad { reset s d d.length with vpending := false })
+  loadAll (startLoad (runPreRun (reset (appExit s) d d.length)))
 
 /-- `prompt(default=d, accept_default=True)`: `validate_and_handle` is scheduled with
     `call_soon` in `pre_run`, i.e. it runs *before* the loader task created by the first
     render gets its first step; the loader then runs to completion while the application
     finishes (or keeps waiting for keys when the default was rejected). -/
 def promptAcceptDefault (v : Validator) (s : St) (d : Text) : St × Option Text :=
-  let (s1, r) := validateAndHandle v { reset s d d.length with vpending := false } true
+  let (s1, r) := validateAndHandle v (runPreRun (reset (appExit s) d d.length)) true
   (loadAll (startLoad s1), r)
+
+/-- what the key bindings take from the Python runtime / from regular expressions: parameters of
+    the key level -/
+structure Env where
+  /-- `str.isspace` -/
+  isSp : Char → Bool
+  /-- `[w.strip() for w in _QUOTED_WORDS_RE.split(line)]` without the empty ones -/
+  words : Text → List Text
+  /-- `go_to_history` forgets the search prefix (the repaired variant) -/
+  fixG : Bool := false
 
 inductive Key
   | char (c : Char)      -- self-insert (arg 1)
@@ -398,10 +614,22 @@ inductive Key
   | nextHist (arg : Int) -- c-down / pagedown: next-history
   | beginHist            -- escape <
   | endHist              -- escape >
-  | enter                -- accept-line (single-line prompt)
+  | enter                -- single-line prompt: accept; multiline prompt: newline(copy_margin=True)
+  | escEnter             -- escape enter: accept-line (also in a multiline prompt)
+  | ctrlO                -- c-o: operate-and-get-next
+  | yankNth (arg : Option Int)   -- escape c-y: yank-nth-arg (`arg` = event.arg if event.arg_present)
+  | yankLast (arg : Option Int)  -- escape . / escape _: yank-last-arg
+  | valDone              -- not a key: the validation in flight finishes (gated / threaded validator)
 deriving Repr
 
-def keyOp : Key → Op
+/-- the buffer operation behind a key; only Enter depends on the state (the `multiline` filter and,
+    for the margin it copies, the current line) -/
+def yankOp (env : Env) (s : St) (n : Option Int) (last : Bool) : Op :=
+  match yankLookup env.words s n last with
+  | some (p, k, w) => .yankApply p k w
+  | none => .setEhs s.ehs      -- `yank_nth_arg` returns at once: nothing happens
+
+def keyOp (env : Env) (s : St) : Key → Op
   | .char c => .insert [c]
   | .backspace => .delBefore 1
   | .left => .left
@@ -414,14 +642,26 @@ def keyOp : Key → Op
   | .ctrlN => .autoDown 1 false
   | .prevHist a => .histBack a
   | .nextHist a => .histFwd a
-  | .beginHist => .goTo 0
-  | .endHist => .endHist
-  | .enter => .accept true
+  | .beginHist => if env.fixG then .goToFixed 0 else .goTo 0
+  | .endHist => if env.fixG then .endHistFixed else .endHist
+  | .enter => if s.ml then .insert (newlineData env.isSp s true) else .accept true
+  | .escEnter => .accept true
+  | .ctrlO => .operateNext
+  | .yankNth a => yankOp env s a false
+  | .yankLast a => yankOp env s a true
+  | .valDone => .vFinish
 
-/-- one key press followed by one turn of the event loop (pending async validation runs) -/
-def keyStep (v : Validator) (s : St) (k : Key) : St × Out :=
-  let (s1, o) := step v s (keyOp k)
-  (asyncValidate v s1, o)
+/-- after the key handler: one turn of the event loop (created validator tasks get their first
+    step); when the handler accepted the input the application then finishes -/
+def afterKey (v : Validator) (s : St) (o : Out) : St :=
+  match o with
+  | .accepted _ => appExit (asyncValidate v s)
+  | _ => asyncValidate v s
+
+/-- one key press followed by one turn of the event loop -/
+def keyStep (v : Validator) (env : Env) (s : St) (k : Key) : St × Out :=
+  let (s1, o) := step v s (keyOp env s k)
+  (afterKey v s1 o, o)
 
 /-! ### thin glue of the vi key bindings -/
 
@@ -455,11 +695,13 @@ inductive ViKey
   | up (arg : Int)       -- <up> (both modes): auto_up(count)
   | down (arg : Int)     -- <down>
   | gotoG (n : Nat)      -- navigation mode `<n>G`: go_to_history(n - 1), n ≥ 1
-  | enter                -- accept-line
+  | enter                -- navigation mode or single-line prompt: accept-line; insert mode of a
+                         -- multiline prompt: newline(copy_margin=True)
+  | valDone              -- not a key: the validation in flight finishes
 deriving Repr
 
 /-- the handler of one vi key: new buffer state, new mode, result -/
-def viHandler (v : Validator) (vs : ViSt) : ViKey → St × Bool × Out
+def viHandler (v : Validator) (env : Env) (vs : ViSt) : ViKey → St × Bool × Out
   | .char c => (insertText vs.st [c], vs.nav, .none)
   | .backspace => (deleteBefore vs.st 1, vs.nav, .none)
   | .escape => (if vs.nav then vs.st else cursorLeft vs.st, true, .none)
@@ -469,15 +711,18 @@ def viHandler (v : Validator) (vs : ViSt) : ViKey → St × Bool × Out
   | .j a => let (s, o) := step v vs.st (.autoDown a true); (s, vs.nav, o)
   | .up a => let (s, o) := step v vs.st (.autoUp a false); (s, vs.nav, o)
   | .down a => let (s, o) := step v vs.st (.autoDown a false); (s, vs.nav, o)
-  | .gotoG n => (goToHistory vs.st (n - 1), vs.nav, .none)
-  | .enter => let (s, o) := step v vs.st (.accept true); (s, vs.nav, o)
+  | .gotoG n => (if env.fixG then goToHistoryFixed vs.st (n - 1) else goToHistory vs.st (n - 1), vs.nav, .none)
+  | .enter =>
+    if vs.st.ml && !vs.nav then (insertText vs.st (newlineData env.isSp vs.st true), vs.nav, .none)
+    else let (s, o) := step v vs.st (.accept true); (s, vs.nav, o)
+  | .valDone => (vFinish v vs.st, vs.nav, .none)
 
 /-- one vi key press: handler, cursor fix when in navigation mode afterwards, then one turn of
     the event loop -/
-def viKeyStep (v : Validator) (vs : ViSt) (k : ViKey) : ViSt × Out :=
-  let (s1, nav1, o) := viHandler v vs k
+def viKeyStep (v : Validator) (env : Env) (vs : ViSt) (k : ViKey) : ViSt × Out :=
+  let (s1, nav1, o) := viHandler v env vs k
   let s2 := if nav1 then viFix s1 else s1
-  ({ st := asyncValidate v s2, nav := nav1 }, o)
+  ({ st := afterKey v s2 o, nav := nav1 }, o)
 
 /-- `prompt()` in vi mode: `vi_state.reset()` puts the session back into insert mode -/
 def viPromptStart (vs : ViSt) (d : Text) : ViSt := { st := promptStart vs.st d, nav := false }
